@@ -38,6 +38,10 @@ pub struct Phase {
     pub append: bool,
     /// one op list per thread
     pub threads: Vec<Vec<Rec>>,
+    /// an extra thread that only reads the file this many times, at arbitrary
+    /// points of the schedule, and checks its shape
+    #[serde(default)]
+    pub observations: u8,
 }
 
 #[derive(Clone, Debug, Serialize, Deserialize, PartialEq)]
@@ -125,7 +129,7 @@ pub fn generate(rng: &mut Rng, tier: Tier) -> Scn {
             threads.push(v);
         }
         tid_base += nthreads as u16;
-        phases.push(Phase { append: rng.chance(3, 4), threads });
+        phases.push(Phase { append: rng.chance(3, 4), threads, observations: if rng.chance(1, 2) { rng.range(1, 5) as u8 } else { 0 } });
     }
     Scn {
         pre: if rng.chance(1, 2) { Some(gen_blob(rng)) } else { None },
@@ -406,6 +410,23 @@ pub fn execute(scn: &Scn, opts: &ExecOpts) -> Outcome {
                 }
             }));
         }
+        if ph.observations > 0 {
+            let model = model.clone();
+            let sink = sink.clone();
+            let path = path.clone();
+            let n = ph.observations;
+            let append_mode = ph.append;
+            bodies.push(Box::new(move || {
+                for _ in 0..n {
+                    kernel::point("observe");
+                    if let Ok(data) = fs::read(&path) {
+                        let m = model.lock().unwrap();
+                        check_file(&sink, &m, &data, None, false, append_mode);
+                        sink.probe("independent_observations", 1);
+                    }
+                }
+            }));
+        }
         let panics = k.run_phase(bodies, common::WATCHDOG_S);
         for (t, msg) in panics {
             if t == usize::MAX {
@@ -481,6 +502,13 @@ pub fn shrink(s: &Scn) -> Vec<Scn> {
         for i in 0..s.phases.len() {
             let mut c = s.clone();
             c.phases.remove(i);
+            out.push(c);
+        }
+    }
+    for (pi, p) in s.phases.iter().enumerate() {
+        if p.observations > 0 {
+            let mut c = s.clone();
+            c.phases[pi].observations = 0;
             out.push(c);
         }
     }
